@@ -134,6 +134,7 @@ type rewriter struct {
 	ctxDone  map[*ast.ExprStmt]bool    // statement `<-E.Done()` with E a context
 	sites    map[*ast.SelectorExpr]string
 	idxKind  map[*ast.IndexExpr]int // slice element accesses: 1 = read, 2 = write, 3 = skip (address taken)
+	afterFn  map[*ast.CallExpr]bool // calls of context.AfterFunc
 }
 
 func (r *rewriter) info() *types.Info { return r.pkg.TypesInfo }
@@ -170,6 +171,17 @@ func (r *rewriter) prepass() {
 	r.ctxDone = map[*ast.ExprStmt]bool{}
 	r.sites = map[*ast.SelectorExpr]string{}
 	r.idxKind = map[*ast.IndexExpr]int{}
+	r.afterFn = map[*ast.CallExpr]bool{}
+	ast.Inspect(r.file, func(n ast.Node) bool {
+		if call, ok := n.(*ast.CallExpr); ok {
+			if sel, ok := call.Fun.(*ast.SelectorExpr); ok {
+				if f, ok := r.info().Uses[sel.Sel].(*types.Func); ok && f.FullName() == "context.AfterFunc" {
+					r.afterFn[call] = true
+				}
+			}
+		}
+		return true
+	})
 	isSliceIdx := func(x *ast.IndexExpr) bool {
 		t := r.info().TypeOf(x.X)
 		if t == nil {
@@ -413,6 +425,12 @@ func (r *rewriter) rewrite() {
 			case 2:
 				pos := r.fset.Position(x.Pos())
 				r.st.Unshimmed = append(r.st.Unshimmed, fmt.Sprintf("%s:%d range over channel", filepath.Base(pos.Filename), pos.Line))
+			}
+		case *ast.CallExpr:
+			if r.afterFn[x] {
+				// a goroutine started by the runtime would escape the scheduler
+				r.needShim = true
+				x.Fun = &ast.SelectorExpr{X: ast.NewIdent("vsched"), Sel: ast.NewIdent("AfterFunc")}
 			}
 		case *ast.IndexExpr:
 			if r.noAccess {
